@@ -355,18 +355,18 @@ Proof.
 Qed.
 
 (* ================================================================ C13 at run level *)
-Definition ev_ok (popt : nat -> popts) (e : event) : Prop :=
-  wf_full (e_msg e) /\ m_beg (e_msg e) <= m_end (e_msg e) /\ f11_class (popt (e_src e)) (e_msg e) = false.
+Definition ev_ok (e : event) : Prop :=
+  wf_full (e_msg e) /\ m_beg (e_msg e) <= m_end (e_msg e).
 
-Lemma payload_run_from c popt evs : forall st, Forall (ev_ok popt) evs ->
+Lemma payload_run_from c popt evs : forall st, Forall ev_ok evs ->
   payload (k_stdout (run_from c popt st evs)) =
   payload (k_stdout st) ++
   flat_map (fun e => dec_bytes (popt (e_src e)) (e_msg e) ++ c_sep c ++ (if supplied_nl e then [10%N] else [])) evs.
 Proof.
   induction evs as [|e evs IH]; intros st H; [simpl; rewrite app_nil_r; reflexivity|].
-  inversion H as [|? ? He Hr]; subst. destruct He as (Hwf & Hbe & Hf).
+  inversion H as [|? ? He Hr]; subst. destruct He as (Hwf & Hbe).
   rewrite run_from_cons, IH by exact Hr. rewrite step_stdout, !payload_app, payload_obs.
-  destruct (print_msg_payload (popt (e_src e)) (e_msg e) (k_lasts st (e_src e)) Hwf Hbe Hf) as [Hp _].
+  destruct (print_msg_payload (popt (e_src e)) (e_msg e) (k_lasts st (e_src e)) Hwf Hbe) as [Hp _].
   unfold ev_prog. rewrite Hp. unfold trailer. simpl flat_map. rewrite <- !app_assoc. reflexivity.
 Qed.
 
@@ -384,7 +384,7 @@ Qed.
 
 (* deleting file field, date field (in that order, at every line start) and the separator after each
    message from the decorated run leaves exactly the undecorated run *)
-Theorem strip_run c srcs evs : Forall (ev_ok (popt_of c srcs evs)) evs ->
+Theorem strip_run c srcs evs : Forall ev_ok evs ->
   strip_msgs (shape_of c (popt_of c srcs evs) evs) (payload (k_stdout (run c srcs evs))) = Some (plain_run evs).
 Proof.
   intro H. unfold run. rewrite payload_run_from by exact H. simpl. apply strip_msgs_run.
